@@ -22,6 +22,9 @@ func init() {
 			{"C10.load-postcondition", "nil return of loadChunk implies done bit set or observed", 1, c10LoadPost},
 			{"C10.set-after-write", "done.Set only behind the nil edge of WriteAt of the fetched data at the chunk's start", 2, c10SetAfterWrite},
 			{"C10.read-after-load", "cache file read only after loadRange succeeded; load errors propagate; FUSE read maps errors to EIO", 3, c10ReadAfterLoad},
+			{"C10.store-eof", "a store failure of io.EOF does not reach the reader of the sparse file as io.EOF (which the FUSE read takes for the regular end)", 1, func(c *Ctx) {
+				c.storeEOF("SparseFileHandle.ReadAt", "the FUSE read of the sparse mount answers success with no data", "sparseFileLoader.loadRange", "sparseFileLoader.loadChunk")
+			}},
 			{"C10.skip-only-done-or-null", "loadRange skips a chunk only when its done bit is set or it is the null chunk", 1, c10SkipOnly},
 			{"C10.null-skip-needs-truncate", "NewSparseFile succeeds only after Truncate or an accepted state for a size-matching file", 1, c10Truncate},
 			{"C10.state-accept", "stateFromReader accepts only a bitmap whose length equals the value derived from the chunk count", 1, c10StateAccept},
@@ -349,6 +352,9 @@ func c10Truncate(c *Ctx) {
 				return []map[int]Val{s1, {0: {N: NNon, Class: ClsOther}}}
 			case "(*desync.sparseFileLoader).loadState":
 				return []map[int]Val{{0: {N: NNil, Class: ClsNil, Sym: "state-accepted"}}, {0: {N: NNon, Class: ClsOther}}}
+			case "(*desync.SparseFile).WriteState":
+				st.Emit("state-written", "", call)
+				return []map[int]Val{{0: {N: NNil, Class: ClsNil}}, {0: {N: NNon, Class: ClsOther}}}
 			}
 			return nil
 		},
@@ -408,6 +414,13 @@ func c10Truncate(c *Ctx) {
 			// next, so it may only have been loaded for a cache file of exactly the indexed size
 			if state && st.Flags["size-match"] != 1 {
 				bad = append(bad, fmt.Sprintf("NewSparseFile returns a usable file at %s after a saved state was loaded although the cache file was not found to be of the indexed size: chunks marked done in the state are served from a file that does not hold them (trail %s)", c.pos(ret.Pos()), strings.Join(st.Trail, ">")))
+				return
+			}
+			// a file that was (re-)initialised without an accepted state no longer matches whatever is
+			// in the state-save file: that file is replaced before NewSparseFile returns, or a process
+			// killed before its first save leaves a full-size file next to a stale state
+			if trunc && !state && !st.Has("state-written") {
+				bad = append(bad, fmt.Sprintf("NewSparseFile returns at %s after re-initialising the file without replacing the saved state: if the process dies before it saves its own state, the next start finds a file of the indexed size next to the stale state and serves the holes of the file for chunks marked done in it (trail %s)", c.pos(ret.Pos()), tailOf(st.Trail, 8)))
 				return
 			}
 			if trunc || (state && st.Flags["size-match"] == 1) {
